@@ -44,7 +44,7 @@ func (f *Failover) VerifKeyLocks() int {
 	// through the simulator's lock table: if a task holds f.lock across a scheduling point (only a broken
 	// library does), the caller parks and the run ends as "stuck" instead of hanging the worker process
 	zzverifsim.MuLock("verif-hook", &f.lock)
-	defer zzverifsim.MuUnlock("verif-hook", &f.lock)
+	defer zzverifsim.MuUnlockQuiet(&f.lock)
 
 	return len(f.keyLocks)
 }
@@ -54,7 +54,7 @@ func (f *Failover) VerifKeyLockNames() []string {
 	// through the simulator's lock table: if a task holds f.lock across a scheduling point (only a broken
 	// library does), the caller parks and the run ends as "stuck" instead of hanging the worker process
 	zzverifsim.MuLock("verif-hook", &f.lock)
-	defer zzverifsim.MuUnlock("verif-hook", &f.lock)
+	defer zzverifsim.MuUnlockQuiet(&f.lock)
 
 	return verifMapKeyNames(f.keyLocks)
 }
